@@ -31,6 +31,8 @@ def run_checks(d, props, tier="quick"):
         r = subprocess.run([os.path.join(HERE, "vcheck"), p, "--tier", tier], env=env, capture_output=True, text=True)
         out[p] = dict(exit=r.returncode, wall=round(time.time() - t, 1),
                       lines=[l for l in r.stdout.splitlines() if l.startswith(("VIOLATION", "KNOWN", "["))][:6],
+                      detail=[l.strip()[:260] for l in r.stdout.splitlines() if l.startswith("   ") and (" REFUTED" in l or " VIOLATED" in l)][:4],
+                      lost=[l.strip()[:200] for l in r.stdout.splitlines() if "proof lost" in l][:1],
                       tail=r.stdout.splitlines()[-12:] if r.returncode not in (0, 1) else [])
     return out
 
